@@ -1280,4 +1280,108 @@ Proof.
 Qed.
 End Timely.
 
+(* ======================================================================== *)
+(*  G. the level a resumed trial continues from = level of the LATEST pause   *)
+(* ======================================================================== *)
+Lemma iter_paused st rest h st1 : proc_event (set_heap st rest) h = Ok st1 -> paused_at st1 = paused_at st.
+Proof.
+  intro Hp. destruct (h_ev h) as [|s| |k i r] eqn:Hev.
+  - destruct (iter_start st rest h st1 Hev Hp) as (tr & seed & rs & tc & _ & _ & _ & _ & _ & _ & Hpa & _). exact Hpa.
+  - revert Hp. unfold Sim.proc_event. rewrite Hev. unfold proc_complete. simpl.
+    destruct (nth_error (trials st) (h_trial h)); [|discriminate]. intro H. injection H as <-. reflexivity.
+  - revert Hp. unfold Sim.proc_event. rewrite Hev. intro H. injection H as <-. reflexivity.
+  - revert Hp. unfold Sim.proc_event. rewrite Hev. unfold proc_result. simpl.
+    destruct (nth_error (trials st) (h_trial h)) as [tr|]; [|discriminate].
+    destruct (t_isres tr); intro H; injection H as <-; reflexivity.
+Qed.
+
+Lemma process_paused fuel st st' : process fuel st = Ok st' -> paused_at st' = paused_at st.
+Proof.
+  intro H. apply (process_ind (fun s => paused_at s = paused_at st)) with (fuel := fuel) (st := st) (st' := st');
+    [|reflexivity|exact H].
+  intros s h rest s1 HI _ _ Hp. rewrite (iter_paused s rest h s1 Hp). exact HI.
+Qed.
+
+Lemma schedule_paused st t dt st' : Sim.schedule S_ tbl draw st t dt = Ok st' -> paused_at st' = paused_at st.
+Proof.
+  unfold Sim.schedule, bind. destruct (advance st dt) as [st1|] eqn:E1; [|discriminate].
+  apply advance_ok in E1 as (_ & _ & ->).
+  destruct (Sim.process_now S_ tbl draw _) as [st2|] eqn:E2; [|discriminate].
+  intro H. injection H as <-. simpl. exact (process_paused _ _ _ E2).
+Qed.
+
+Lemma stop_or_pause_paused st t s dt st' : Sim.stop_or_pause S_ tbl draw st t s dt = Ok st' -> paused_at st' = paused_at st.
+Proof.
+  unfold Sim.stop_or_pause, bind. destruct (advance st dt) as [st1|] eqn:E1; [|discriminate].
+  apply advance_ok in E1 as (_ & _ & ->).
+  destruct (Sim.process_now S_ tbl draw _) as [st3|] eqn:E3; [|discriminate].
+  destruct (Sim.process_now S_ tbl draw _) as [st5|] eqn:E5 in |- *; [|discriminate].
+  intro H. injection H as <-. simpl.
+  rewrite (process_paused _ _ _ E5). simpl. rewrite (process_paused _ _ _ E3). reflexivity.
+Qed.
+
+Lemma paused_set_status st t s : paused_at (set_status st t s) = paused_at st.
+Proof. unfold set_status. destruct (nth_error (trials st) t); reflexivity. Qed.
+Lemma paused_set_config st t c : paused_at (set_config st t c) = paused_at st.
+Proof. unfold set_config. destruct (nth_error (trials st) t); reflexivity. Qed.
+
+(* only pause_trial(trial, result) with a result writes _resource_paused_for_trial *)
+Lemma step_paused st o st' out : step st o = Ok (st', out) ->
+  paused_at st' = match o with
+                  | OpPause t (Some l) _ => set_key t l (paused_at st)
+                  | _ => paused_at st
+                  end.
+Proof.
+  destruct o as [c dt|t newc dt|t lvl dt|t dt|ids dt| |]; cbn [Sim.step]; unfold bind.
+  - destruct (Sim.schedule S_ tbl draw st (length (trials st)) dt) as [st1|] eqn:E; [|discriminate].
+    intro H. injection H as <- _. simpl. exact (schedule_paused _ _ _ _ E).
+  - destruct (nth_error (trials st) t) as [tr|]; [|discriminate].
+    destruct (t_status tr) as [[]|]; try discriminate.
+    destruct (Sim.schedule S_ tbl draw _ t dt) as [st1|] eqn:E; [|discriminate].
+    intro H. injection H as <- _. rewrite paused_set_status, (schedule_paused _ _ _ _ E).
+    destruct newc; [apply paused_set_config|reflexivity].
+  - destruct (negb (Nat.ltb t (length (trials st)))); [discriminate|].
+    destruct (Sim.stop_or_pause S_ tbl draw _ t Paused dt) as [st1|] eqn:E; [|discriminate].
+    intro H. injection H as <- _. apply stop_or_pause_paused in E. rewrite paused_set_status in E.
+    destruct lvl; simpl; rewrite E; reflexivity.
+  - destruct (Sim.stop_or_pause S_ tbl draw st t Stopped dt) as [st1|] eqn:E; [|discriminate].
+    intro H. injection H as <- _. exact (stop_or_pause_paused _ _ _ _ _ E).
+  - destruct (advance st dt) as [st1|] eqn:E1; [|discriminate].
+    apply advance_ok in E1 as (_ & _ & ->).
+    destruct (Sim.process_now S_ tbl draw _) as [st2|] eqn:E2; [|discriminate].
+    destruct (collect ids (nextres st2) []) as [rs nr].
+    destruct (statuses (trials (set_nextres st2 [])) ids); [|discriminate].
+    intro H. injection H as <- _. simpl. exact (process_paused _ _ _ E2).
+  - destruct (Sim.process_now S_ tbl draw st) as [st1|] eqn:E; [|discriminate].
+    intro H. injection H as <- _. exact (process_paused _ _ _ E).
+  - destruct (advance st (sleep_time S_)) as [st1|] eqn:E; [|discriminate].
+    apply advance_ok in E as (_ & _ & ->). intro H. injection H as <- _. reflexivity.
+Qed.
+
+(* successful execution of a call sequence *)
+Fixpoint exec (st : state) (ops : list op) : option state :=
+  match ops with
+  | [] => Some st
+  | o :: r => match step st o with Ok (st', _) => exec st' r | Err _ => None end
+  end.
+
+(* the level passed by the latest pause_trial(t, result) of a history ([init] before it) *)
+Fixpoint last_pause (t : nat) (ops : list op) (init : option nat) : option nat :=
+  match ops with
+  | [] => init
+  | OpPause t' (Some l) _ :: r => last_pause t r (if Nat.eqb t t' then Some l else init)
+  | _ :: r => last_pause t r init
+  end.
+
+Lemma paused_is_last_pause t : forall ops st st',
+  exec st ops = Some st' -> lookup t (paused_at st') = last_pause t ops (lookup t (paused_at st)).
+Proof.
+  induction ops as [|o ops IH]; intros st st' H; simpl in H.
+  - injection H as <-. reflexivity.
+  - destruct (step st o) as [[s1 out]|e] eqn:Es; [|discriminate].
+    rewrite (IH s1 st' H), (step_paused _ _ _ _ Es).
+    destruct o as [c dt|t0 newc dt|t0 [l|] dt|t0 dt|ids dt| |]; simpl; try reflexivity.
+    rewrite lookup_set_key. reflexivity.
+Qed.
+
 End Delivery.
